@@ -6,6 +6,15 @@ Correspondence (B): real `splitLines` / `Line` component (client and server mode
 Spec on impl (C): `Line.untaggedOk` (lines-exact, which determines the output uniquely and
 therefore implies segmentation invariance), `Irc.oneLine`, `Irc.wellFormed -> expectedParse`,
 all evaluated by the Lean driver on the implementation's own output.
+
+Component path (CV.Model.IrcComp): a real `IRC` component (which registers a real `Line`) is driven in-process with
+`read` events - the byte stream cut arbitrarily, several sockets in server mode - and its `response` events, `write`
+events and handler failures are compared with `compRead` / `compServerRead`; `request(Message)` -> `write(bytes)` with
+`requestBytes`; `Message.from_string`, `strip`, `parseprefix`, the UTF-8 'replace' decoder and `int()` with their models.
+Spec on impl: for every constructor / Message applied to hostile strings, the bytes written by `IRC.request` are one CRLF
+line (`component-injection`), a second Line+IRC stack reading them (cut anywhere, client or server mode) fires the response
+`Irc.expectedResp` describes (`component-roundtrip`), `from_string` gives the message back (`from-string-roundtrip`), and a
+one-argument client PING is answered by a PONG that reads back with that argument (`ping-reply`).
 """
 import itertools
 
@@ -443,7 +452,597 @@ def parse_cases(ctx):
     return cases
 
 
-EVAL = {'line': eval_line, 'server': eval_server, 'irc': eval_irc, 'ircparse': eval_parse}
+
+# ---------------------------------------------------------------------------------------
+# the IRC *component* (IRC stacked on Line), strip, parseprefix, Message.from_string
+# ---------------------------------------------------------------------------------------
+
+def lower_is_ascii(text):
+    """the model lower-cases ASCII only: every non-ASCII character must be fixed by str.lower"""
+    return all(ord(ch) < 128 or ch.lower() == ch for ch in text)
+
+
+class IrcRig:
+    """a real IRC component (which registers a real Line) under a Manager, with a probe that records
+    response events, write events and failures of IRC.line in dispatch order"""
+
+    def __init__(self, server=False):
+        from circuits import BaseComponent, Manager, handler
+        from circuits.protocols.irc import IRC
+        from circuits.protocols.irc.events import response
+        from cutil import drain
+        rig = self
+        self.bufs = {}
+        self.log = []
+        self.server = server
+        kw = {}
+        if server:
+            kw = {'getBuffer': lambda s: rig.bufs.get(s, b''), 'updateBuffer': lambda s, b: rig.bufs.__setitem__(s, b)}
+        self.m = Manager()
+        self.irc = IRC(**kw).register(self.m)
+        self.line = [c for c in self.irc.components if type(c).__name__ == 'Line'][0]
+
+        class Probe(BaseComponent):
+            channel = '*'
+
+            @handler(channel='*', priority=1000)
+            def _on_any(self, event, *args, **kwargs):
+                if isinstance(event, response):
+                    rig.log.append(('resp', event.name, args))
+                elif event.name == 'write':
+                    rig.log.append(('write', args))
+                elif event.name == 'exception':
+                    fe, h = kwargs.get('fevent'), kwargs.get('handler')
+                    if (fe is not None and not isinstance(fe, response) and fe.name == 'line'
+                            and getattr(h, '__name__', '') == 'line' and getattr(h, '__self__', None) is rig.irc):
+                        rig.log.append(('err', type(args[1]).__name__))
+                    else:
+                        rig.log.append(('exc', type(args[1]).__name__))
+
+        Probe().register(self.m)
+        self._drain = drain
+        drain(self.m)
+        self.log.clear()
+
+    def fire(self, ev):
+        before = len(self.log)
+        self.m.fire(ev)
+        self._drain(self.m)
+        return self.log[before:]
+
+    def read(self, sock, data):
+        from circuits.io.events import read
+        out = self.fire(read(sock, data) if self.server else read(data))
+        buf = self.bufs.get(sock, b'') if self.server else self.line.buffer
+        return buf, out
+
+
+def show_resp(server, name, args):
+    """canonical text of a response event, same layout as the driver's `showResp`"""
+    args = list(args)
+    sock = '~'
+    if server:
+        sock = str(args.pop(0))
+    pfx = args.pop(0)
+    num = '~'
+    if name == 'numeric' and args and isinstance(args[0], int):
+        num = str(args.pop(0))
+    return f"resp {sx(name)} {sock} {' '.join(opt(x) for x in pfx)} {num} | {' '.join(sx(a) for a in args)}".strip()
+
+
+def show_log(server, buf, log):
+    items = [hx(buf)]
+    items += [show_resp(server, e[1], e[2]) if e[0] == 'resp' else 'err' for e in log if e[0] in ('resp', 'err')]
+    items += [f'write {hx(e[1][0])}' if len(e[1]) == 1 and isinstance(e[1][0], bytes) else f'write ?{e[1]!r}'
+              for e in log if e[0] == 'write']
+    return ' ; '.join(items)
+
+
+def norm(a):
+    return ' '.join(a.split())
+
+
+def eval_comp(ctx, cases):
+    """cases: dict(kind='comp', server=bool, reads=[[sock|None, hex], ...]) - bytes -> Line -> IRC"""
+    ops, impl = [], []
+    for c in cases:
+        stream = b''.join(unhx(d) for _s, d in c['reads'])
+        text = stream.decode('utf-8', 'replace')
+        rec = {'inmodel': lower_is_ascii(text), 'per': []}
+        try:
+            rig = IrcRig(server=c['server'])
+            for sock, d in c['reads']:
+                buf, log = rig.read(sock, unhx(d))
+                rec['per'].append(show_log(c['server'], buf, log))
+                for e in log:
+                    ctx.count('comp_event', e[0] if e[0] != 'resp' else
+                              ('resp:numeric' if e[1] == 'numeric' else 'resp:ping' if e[1] == 'ping' else 'resp:other'))
+        except Exception as e:  # the rig itself must not fail
+            rec['exc'] = repr(e)
+        impl.append(rec)
+        ops.append([f"cread {'~' if s is None else s} {d}" for s, d in c['reads']])
+    answers = ctx.driver.batch('irc', ops)
+    for c, rec, ans in zip(cases, impl, answers):
+        ctx.count('comp_mode', 'server' if c['server'] else 'client')
+        ctx.count('comp_reads', min(len(c['reads']), 9))
+        if 'exc' in rec:
+            ctx.disagree(c, {'where': 'comp.rig', 'impl': rec['exc'], 'model': ans})
+            ctx.case(c, validated=False)
+            continue
+        if not rec['inmodel']:
+            ctx.count('comp_outside_model', 'non-ascii cased character')
+            ctx.case(c, validated=False)
+            continue
+        ok = True
+        for i, (want, a) in enumerate(zip(rec['per'], ans)):
+            if norm(want) != norm(a):
+                ok = False
+                ctx.disagree(c, {'where': 'comp.read', 'read': i, 'impl': want, 'model': a})
+                break
+        ctx.case(c, nontrivial=any('resp' in p for p in rec['per']), validated=ok)
+
+
+def build_message(c):
+    """the Message of a case (constructor table or Message() directly); raises what the code raises"""
+    from circuits.protocols.irc import commands
+    from circuits.protocols.irc.message import Message
+    if c['ctor'] == 'Message':
+        kw = {'prefix': c['prefix']} if c.get('prefix') is not None else {}
+        return Message(c['command'], *c['args'], **kw)
+    return getattr(commands, c['ctor'])(*c['args']).args[0]
+
+
+def eval_creq(ctx, cases):
+    """cases: dict(kind='creq', ctor, args, [prefix, command], cuts=[...], server=bool)
+    request(Message) -> write(bytes) on one IRC component; the written bytes, cut at `cuts`, are read by a second
+    IRC component; its response must give back prefix / command / arguments (C18 on the component path)."""
+    from circuits.protocols.irc.events import request
+    from circuits.protocols.irc.message import Error, Message
+    from circuits.protocols.irc.utils import parseprefix
+    ops, impl = [], []
+    for c in cases:
+        rec = {}
+        o = []
+        try:
+            msg = build_message(c)
+            rec['msg'] = (msg.prefix, msg.command, list(msg.args))
+        except Error:
+            rec['msg'] = None
+        except Exception as e:
+            rec['msg'] = None
+            rec['exc'] = repr(e)
+        if rec['msg'] is not None:
+            p, cmd, args = rec['msg']
+            cmd_t = '~' if cmd is None else sx(str(cmd))
+            mtxt = f"{opt(p)} {cmd_t} {' '.join(sx(a) for a in args)}"
+            sender = IrcRig()
+            log = sender.fire(request(msg))
+            writes = [e[1] for e in log if e[0] == 'write']
+            rec['writes'] = writes
+            rec['send_exc'] = [e[1] for e in log if e[0] == 'exc']
+            o.append(f'creq {mtxt}')
+            if len(writes) == 1 and len(writes[0]) == 1 and isinstance(writes[0][0], bytes):
+                wire = writes[0][0]
+                rec['wire'] = wire
+                o.append(f"oneline {sx(wire.decode('utf-8', 'surrogatepass'))}")
+                recv = IrcRig(server=c.get('server', False))
+                sock = 7 if c.get('server') else None
+                rlog = []
+                for seg in cuts_to_segments(wire, c.get('cuts', [])):
+                    _buf, lg = recv.read(sock, seg)
+                    rlog += lg
+                resps = [e for e in rlog if e[0] == 'resp']
+                rec['resps'] = resps
+                rec['recv_buf'] = recv.bufs.get(sock, b'') if c.get('server') else recv.line.buffer
+                rec['recv_writes'] = [e for e in rlog if e[0] == 'write']
+                if len(resps) == 1:
+                    shown = show_resp(bool(c.get('server')), resps[0][1], resps[0][2])
+                    # resp <name> <sock> <n> <u> <h> <num> | args  ->  <name> <n> <u> <h> <num> args
+                    head, _bar, tail = shown.partition('|')
+                    h = head.split()
+                    obs = f"{h[1]} {h[3]} {h[4]} {h[5]} {h[6]} {tail.strip()}"
+                else:
+                    obs = 'none'
+                o.append(f"comprt {'~' if sock is None else sock} {mtxt} | {obs}")
+                # Message.from_string on the serialised line
+                if len(wire) - 2 <= 512:
+                    try:
+                        back = Message.from_string(wire[:-2])
+                        rec['back'] = (back.prefix, back.command, list(back.args))
+                    except Exception as e:
+                        rec['back'] = repr(e)
+                    o.append(f'fromstr {hx(wire[:-2])}')
+        ops.append(o)
+        impl.append(rec)
+    answers = ctx.driver.batch('irc', ops)
+    for c, rec, o, ans in zip(cases, impl, ops, answers):
+        a = {}
+        for op, an in zip(o, ans):
+            a.setdefault(op.split(' ', 1)[0], an)
+        sig = classify_irc(c)
+        ctx.count('creq_ctor', c['ctor'])
+        ctx.count('creq_cuts', min(len(c.get('cuts', [])), 9))
+        ctx.count('creq_mode', 'server' if c.get('server') else 'client')
+        if rec['msg'] is None:
+            ctx.count('creq_outcome', 'refused-at-construction')
+            ctx.case(c, nontrivial=False, validated='exc' not in rec)
+            continue
+        ok = True
+        if 'wire' not in rec:
+            # nothing (or something that is not one bytes object) was written
+            want = 'error' if not rec['writes'] else f'write ?{rec["writes"]!r}'
+            ctx.count('creq_outcome', 'refused-at-request' if not rec['writes'] else 'odd-write')
+            if rec['writes']:
+                ctx.violate(c, f'component-injection({sig}; {len(rec["writes"])} writes)',
+                            f'request({rec["msg"]!r}) fired write events {rec["writes"]!r}')
+            if a.get('creq') != want:
+                ok = False
+                ctx.disagree(c, {'where': 'comp.request', 'impl': want, 'model': a.get('creq')})
+            ctx.case(c, nontrivial=True, validated=ok)
+            continue
+        wire = rec['wire']
+        ctx.count('creq_outcome', 'written')
+        if a.get('creq') != f'write {hx(wire)}':
+            ok = False
+            ctx.disagree(c, {'where': 'comp.request', 'impl': f'write {hx(wire)}', 'model': a.get('creq')})
+        if a.get('oneline') != 'ok':
+            ctx.violate(c, f'component-injection({sig})', f'request({rec["msg"]!r}) writes {wire!r}')
+        rt = a.get('comprt', 'ok')
+        ctx.count('component_roundtrip', rt)
+        if rt.startswith('fail'):
+            ctx.violate(c, f'component-roundtrip({rt[5:]}; {sig})',
+                        f'{rec["msg"]!r} written as {wire!r} comes back as response events {rec["resps"]!r}')
+        elif rt == 'ok':
+            if rec['recv_buf'] != b'' or len(rec['resps']) != 1:
+                ctx.violate(c, f'component-roundtrip(line-not-delivered; {sig})',
+                            f'{wire!r} read by Line+IRC: buffer {rec["recv_buf"]!r}, {len(rec["resps"])} response events')
+        # from_string: model vs code, and the round trip for well-formed messages with a str command
+        if 'back' in rec:
+            p, cmd, args = rec['msg']
+            back = rec['back']
+            want = 'error' if isinstance(back, str) else \
+                f"{opt(back[0])} {opt(back[1])} | {' '.join(sx(x) for x in back[2])}"
+            inmodel = lower_is_ascii(wire.decode('utf-8', 'replace'))
+            if inmodel and norm(a.get('fromstr', '')) != norm(want):
+                ok = False
+                ctx.disagree(c, {'where': 'irc.from_string', 'impl': want, 'model': a.get('fromstr')})
+            if rt in ('ok', 'ok no-event-expected') and isinstance(cmd, str) and p != '':
+                ctx.count('from_string_roundtrip', 'checked')
+                if isinstance(back, str):
+                    ctx.violate(c, f'from-string-roundtrip(raises; {sig})', f'from_string({wire[:-2]!r}) raises {back}')
+                elif tuple(back) != (p, cmd, args):
+                    which = 'prefix' if back[0] != p else 'command' if back[1] != cmd else 'args'
+                    ctx.violate(c, f'from-string-roundtrip({which}; {sig})',
+                                f'from_string({wire[:-2]!r}) = {back!r} for message {rec["msg"]!r}')
+        ctx.case(c, nontrivial=True, validated=ok)
+
+
+def eval_ping(ctx, cases):
+    """cases: dict(kind='ping', prefix, args=[...], server=bool, cuts) - a PING line read by the component:
+    client mode with one argument -> one PONG with that argument (read back by a second component)"""
+    from circuits.protocols.irc.message import Error, Message
+    ops, impl = [], []
+    for c in cases:
+        rec = {}
+        o = []
+        try:
+            kw = {'prefix': c['prefix']} if c.get('prefix') is not None else {}
+            m = Message(c.get('command', 'PING'), *c['args'], **kw)
+            line = bytes(m)
+        except Error:
+            line = None
+        rec['line'] = line
+        if line is not None:
+            rig = IrcRig(server=c['server'])
+            sock = 3 if c['server'] else None
+            per, log = [], []
+            segs = cuts_to_segments(line, c.get('cuts', []))
+            for seg in segs:
+                buf, lg = rig.read(sock, seg)
+                per.append(show_log(c['server'], buf, lg))
+                log += lg
+            rec['per'] = per
+            o += [f"cread {'~' if sock is None else sock} {hx(seg)}" for seg in segs]
+            resps = [e for e in log if e[0] == 'resp']
+            writes = [e[1] for e in log if e[0] == 'write']
+            rec['resps'], rec['writes'] = resps, writes
+            # the statement is judged on what the component itself parsed: PING with exactly one argument
+            if (not c['server'] and len(resps) == 1 and resps[0][1] == 'ping' and len(resps[0][2]) == 2):
+                arg = resps[0][2][1]
+                rec['arg'] = arg
+                if len(writes) == 1 and len(writes[0]) == 1 and isinstance(writes[0][0], bytes):
+                    recv = IrcRig()
+                    _b, rlog = recv.read(None, writes[0][0])
+                    rr = [e for e in rlog if e[0] == 'resp']
+                    rec['pong'] = rr
+                    if len(rr) == 1:
+                        shown = show_resp(False, rr[0][1], rr[0][2])
+                        head, _bar, tail = shown.partition('|')
+                        h = head.split()
+                        obs = f"{h[1]} {h[3]} {h[4]} {h[5]} {h[6]} {tail.strip()}"
+                    else:
+                        obs = 'none'
+                    o.append(f"oneline {sx(writes[0][0].decode('utf-8', 'surrogatepass'))}")
+                else:
+                    obs = 'none'
+                o.append(f"comprt ~ ~ {sx('PONG')} {sx(arg)} | {obs}")
+        ops.append(o)
+        impl.append(rec)
+    answers = ctx.driver.batch('irc', ops)
+    for c, rec, o, ans in zip(cases, impl, ops, answers):
+        ctx.count('ping_mode', 'server' if c['server'] else 'client')
+        ctx.count('ping_args', len(c['args']))
+        if rec['line'] is None:
+            ctx.case(c, nontrivial=False)
+            continue
+        ok = True
+        inmodel = lower_is_ascii(rec['line'].decode('utf-8', 'replace'))
+        a = {}
+        for i, (op, an) in enumerate(zip(o, ans)):
+            if op.startswith('cread'):
+                if inmodel and norm(an) != norm(rec['per'][i]):
+                    ok = False
+                    ctx.disagree(c, {'where': 'comp.ping', 'read': i, 'impl': rec['per'][i], 'model': an})
+            else:
+                a.setdefault(op.split(' ', 1)[0], an)
+        if 'arg' in rec:
+            rt = a.get('comprt', 'ok')
+            ctx.count('ping_reply', rt if rt != 'ok not-well-formed' or not rec['writes'] else 'ok not-well-formed (answered)')
+            sig = 'CR in arg' if '\r' in rec['arg'] else 'other'
+            if a.get('oneline', 'ok') != 'ok':
+                ctx.violate(c, f'ping-reply(injection; {sig})', f'PING {rec["arg"]!r} answered with {rec["writes"]!r}')
+            if len(rec['writes']) > 1:
+                ctx.violate(c, f'ping-reply({len(rec["writes"])} writes; {sig})', f'PING {rec["arg"]!r} answered with {rec["writes"]!r}')
+            if rt.startswith('fail'):
+                ctx.violate(c, f'ping-reply({rt[5:]}; {sig})',
+                            f'PING {rec["arg"]!r} answered with {rec["writes"]!r}, read back as {rec.get("pong")!r}')
+        else:
+            ctx.count('ping_reply', 'not a one-argument client PING')
+            if rec.get('writes') and not (len(rec['resps']) == 1 and rec['resps'][0][1] == 'ping'):
+                ctx.violate(c, 'ping-reply(unsolicited write)', f'{rec["line"]!r} caused {rec["writes"]!r}')
+        ctx.case(c, nontrivial='arg' in rec, validated=ok)
+
+
+def eval_fromstr(ctx, cases):
+    """cases: dict(kind='fromstr', line=hex) - Message.from_string on arbitrary bytes"""
+    from circuits.protocols.irc.message import Message
+    ops, impl = [], []
+    for c in cases:
+        raw = unhx(c['line'])
+        try:
+            back = Message.from_string(raw)
+            impl.append(f"{opt(back.prefix)} {opt(back.command)} | {' '.join(sx(x) for x in back.args)}")
+        except Exception as e:
+            impl.append('error')
+            ctx.count('fromstr_error', type(e).__name__)
+        ops.append([f'fromstr {hx(raw)}'])
+    answers = ctx.driver.batch('irc', ops)
+    for c, want, ans in zip(cases, impl, answers):
+        ctx.count('fromstr_outcome', 'error' if want == 'error' else 'message')
+        ok = norm(ans[0]) == norm(want)
+        if not ok:
+            ctx.disagree(c, {'where': 'irc.from_string', 'impl': want, 'model': ans[0]})
+        ctx.case(c, nontrivial=want != 'error', validated=ok)
+
+
+def eval_util(ctx, cases):
+    """cases: dict(kind='util', fn='strip0'|'strip1'|'pprefix'|'decode'|'pyint', s=str | b=hex)"""
+    from circuits.protocols.irc.utils import parseprefix, strip
+    ops, impl = [], []
+    for c in cases:
+        fn = c['fn']
+        if fn == 'strip0':
+            impl.append(sx(strip(c['s'])))
+            ops.append([f"strip 0 {sx(c['s'])}"])
+        elif fn == 'strip1':
+            impl.append(sx(strip(c['s'], color=True)))
+            ops.append([f"strip 1 {sx(c['s'])}"])
+        elif fn == 'pprefix':
+            impl.append(' '.join(opt(x) for x in parseprefix(c['s'])))
+            ops.append([f"pprefix {sx(c['s'])}"])
+        elif fn == 'decode':
+            impl.append(sx(unhx(c['b']).decode('utf-8', 'replace')))
+            ops.append([f"decode {c['b']}"])
+        else:
+            try:
+                impl.append(str(int(c['s'])))
+            except ValueError:
+                impl.append('~')
+            ops.append([f"pyint {sx(c['s'])}"])
+    answers = ctx.driver.batch('irc', ops)
+    for c, want, ans in zip(cases, impl, answers):
+        ctx.count('util_fn', c['fn'])
+        ok = norm(ans[0]) == norm(want)
+        if not ok:
+            ctx.disagree(c, {'where': f"irc.{c['fn']}", 'impl': want, 'model': ans[0]})
+        ctx.case(c, nontrivial=True, validated=ok)
+
+
+def check_params(ctx):
+    """tables the model contains, compared with the live interpreter over all code points"""
+    import re
+    import unicodedata
+    ans = ctx.driver.run('irc', ['ndtable'])[0]
+    starts = [int(x) for x in ans.split()]
+    model = {}
+    for s0 in starts:
+        for k in range(10):
+            model[s0 + k] = k
+    digit = re.compile(r'\d')
+    bad = []
+    for cp in range(0x110000):
+        if 0xD800 <= cp <= 0xDFFF:
+            continue
+        ch = chr(cp)
+        live = digit.match(ch) is not None
+        if live != (cp in model):
+            bad.append(hex(cp))
+        elif live and (unicodedata.decimal(ch) != model[cp] or int(ch) != model[cp]):
+            bad.append(hex(cp))
+    ctx.param('unicode-decimal-digits', not bad,
+              f'{len(starts)} runs of ten digits = re \\d = int() on every code point' if not bad else f'differs at {bad[:8]}')
+    spaces = [cp for cp in range(0x110000) if not 0xD800 <= cp <= 0xDFFF and chr(cp).isspace()]
+    probe = sorted(set(spaces) | {cp + d for cp in spaces for d in (-1, 1) if 0 <= cp + d < 0x110000} | {0, 0x41, 0x7f, 0xffff})
+    probe = [cp for cp in probe if not 0xD800 <= cp <= 0xDFFF]
+    got = ctx.driver.run('irc', [f'isspace {cp}' for cp in probe])
+    bad = [hex(cp) for cp, g in zip(probe, got) if (g == '1') != chr(cp).isspace()]
+    ctx.param('python-whitespace', not bad,
+              f'{len(spaces)} white-space code points (and their neighbours) agree with str.isspace' if not bad else f'differs at {bad[:8]}')
+
+
+# generators ---------------------------------------------------------------------------
+
+COMP_LINES = [b'PING :abc', b'PING a', b'PING', b'PING a b', b':srv PING :x y', b'ping :q', b'PiNG z', b'PING ::x', b'PING :',
+              b':n!u@h PRIVMSG #c :hi there', b':n!u@h PRIVMSG #c hi', b'001 nick :Welcome', b':srv 433 * nick :in use',
+              b'0', b'12a x', b'1_0 a', b' :1_0 ', b' :12 \t', b'1__0', b'007', b'', b' ', b' :', b':', b':onlyprefix', b': X',
+              b'NUMERIC 5', b'LINE x', b'READ', b'READ x', b'REQUEST', b'REQUEST x', b'WRITE x', b'PONG a', b'A\x00B x',
+              'PRIVMSG #c :hé €'.encode(), '٣ a'.encode(), '1٣ a'.encode(), b'\xff\xfe PING', b'NOTICE \xe2\x82 x',
+              b'PING :a\rb', b'a\rb c', b':p\tq CMD x', b':a!b!c@d@e X', b':!a@b X', b':a!@ X', b':@!a X', b':a@b!c X']
+COMP_TOK = [b'PING', b'ping', b' ', b' ', b':', b' :', b'a', b'b c', b'1', b'23', b'_', b'\r', b'\r\n', b'\n', b'\r\n', b'!', b'@',
+            b'\x00', b'\t', 'é'.encode(), '€'.encode(), b'\xff', b'\xe2\x82', b'\xf0\x9f', b'\xed\xa0\x80', b'PRIVMSG', b'N', b'x']
+
+
+def comp_cases(ctx):
+    rng = ctx.rng
+    cases = []
+
+    def add(stream_by_sock, server):
+        pieces = []
+        for s, st in stream_by_sock.items():
+            n = len(st)
+            k = rng.randint(0, max(0, min(4, n - 1)))
+            cuts = sorted(rng.sample(range(1, n), k)) if n > 1 else []
+            pieces.append([(s, seg) for seg in cuts_to_segments(st, cuts)])
+        reads = []
+        while any(pieces):
+            p = rng.choice([p for p in pieces if p])
+            reads.append(p.pop(0))
+        cases.append({'kind': 'comp', 'server': server, 'reads': [[s, hx(d)] for s, d in reads]})
+
+    for ln in COMP_LINES:          # every fixed line: whole, in client and in server mode
+        for term in (b'\r\n', b'\n'):
+            cases.append({'kind': 'comp', 'server': False, 'reads': [[None, hx(ln + term)]]})
+        cases.append({'kind': 'comp', 'server': True, 'reads': [[5, hx(ln + b'\r\n')]]})
+    cases.append({'kind': 'comp', 'server': False, 'reads': [[None, hx(b'1' * 4300 + b' a\r\n' + b'2' * 4301 + b' a\r\n')]]})
+    for _ in range(120 * ctx.scale):
+        server = rng.random() < 0.4
+        socks = list(range(1, rng.randint(1, 3) + 1)) if server else [None]
+        streams = {}
+        for s in socks:
+            parts = []
+            for _ in range(rng.randint(1, 4)):
+                if rng.random() < 0.5:
+                    parts.append(rng.choice(COMP_LINES) + rng.choice([b'\r\n', b'\n', b'\r\n', b'']))
+                else:
+                    parts.append(b''.join(rng.choice(COMP_TOK) for _ in range(rng.randint(1, 8))))
+            streams[s] = b''.join(parts)
+        add(streams, server)
+    return cases
+
+
+def creq_cases(ctx):
+    rng = ctx.rng
+    cases = []
+    small = irc_strings(1) + ['a b', ' a', 'a ', ':a', 'a:b', 'a\tb', 'a\t', '\ta b', 'a\rb', 'a\nb', 'a\r\nQUIT', 'a\0b', 'é €',
+                              '12', '1a', 'A', 'Z z', '\x85', 'a\x85', 'a \x85']
+    benign = ['x', '#c', 'nick']
+    for name, (lo, hi) in CTORS.items():        # every constructor x every position x hostile strings
+        for n in range(lo, hi + 1):
+            for pos in range(n):
+                for s in small:
+                    args = [benign[i % 3] for i in range(n)]
+                    args[pos] = s
+                    wl = 12 + sum(len(x) for x in args)
+                    cuts = sorted(rng.sample(range(1, wl), rng.randint(0, 3))) if rng.random() < 0.7 else []
+                    cases.append({'kind': 'creq', 'ctor': name, 'args': args, 'cuts': cuts, 'server': rng.random() < 0.3})
+            if n == 0:
+                cases.append({'kind': 'creq', 'ctor': name, 'args': [], 'cuts': [], 'server': False})
+    cmds = ['PRIVMSG', 'privmsg', 'PiNG', '001', '1', '0042', '12a', '1_0', 'a1', 'A B', ':A', 'A\r\nB', 'A\0B', 'PONG', 'numeric',
+            'LINE', 'READ', 'WRITE', 'REQUEST', '']
+    pfxs = [None, 'n!u@h', 'srv', 'a b', 'x\r\ny', '', 'a!b', 'a@b', 'a!b!c@d@e', '!a@b', 'n!u@h\tx', ':n']
+    for cmd in cmds:
+        for pfx in pfxs:
+            for args in ([], ['a'], ['a', 'b c'], ['#c', ':x'], ['a', '']):
+                cuts = sorted(rng.sample(range(1, 20), rng.randint(0, 3)))
+                cases.append({'kind': 'creq', 'ctor': 'Message', 'command': cmd, 'prefix': pfx, 'args': list(args), 'cuts': cuts,
+                              'server': rng.random() < 0.3})
+    cases.append({'kind': 'creq', 'ctor': 'Message', 'command': None, 'prefix': None, 'args': ['a'], 'cuts': [], 'server': False})
+    cases.append({'kind': 'creq', 'ctor': 'Message', 'command': 'PRIVMSG', 'prefix': 'n!u@h', 'args': ['#c', 'x' * 520], 'cuts': [300],
+                  'server': False})
+    for _ in range(150 * ctx.scale):
+        n = rng.randint(0, 4)
+        args = [''.join(rng.choice(IRC_ALPHA + ['a', 'b', 'c', '1']) for _ in range(rng.randint(1, 5))) for _ in range(n)]
+        cmd = ''.join(rng.choice(['A', 'b', '1', '2', ':', ' ', '\r', '_']) for _ in range(rng.randint(1, 4)))
+        wl = 8 + sum(len(x) for x in args)
+        cases.append({'kind': 'creq', 'ctor': 'Message', 'command': cmd, 'prefix': rng.choice(pfxs), 'args': args,
+                      'cuts': sorted(rng.sample(range(1, wl), rng.randint(0, 3))), 'server': rng.random() < 0.3})
+    return cases
+
+
+def ping_cases(ctx):
+    rng = ctx.rng
+    cases = []
+    args1 = irc_strings(2) + ['a b', ' a', 'a ', 'a  b', ':a b', 'a\tb', 'a b\t', 'é €', 'x' * 40, 'a\x85b', 'a \x85']
+    for s in args1:
+        for server in (False, True):
+            cases.append({'kind': 'ping', 'prefix': rng.choice([None, 'srv', 'n!u@h']), 'args': [s], 'server': server,
+                          'cuts': sorted(rng.sample(range(1, 8), rng.randint(0, 2)))})
+    for args in ([], ['a', 'b'], ['a', 'b c'], ['a', 'b', 'c']):
+        for server in (False, True):
+            cases.append({'kind': 'ping', 'prefix': None, 'args': list(args), 'server': server, 'cuts': []})
+    for cmd in ('ping', 'PiNg', 'PINGS', 'PONG'):
+        cases.append({'kind': 'ping', 'command': cmd, 'prefix': None, 'args': ['tok'], 'server': False, 'cuts': [2]})
+    return cases
+
+
+def fromstr_cases(ctx):
+    rng = ctx.rng
+    cases = [{'kind': 'fromstr', 'line': hx(ln)} for ln in COMP_LINES]
+    cases += [{'kind': 'fromstr', 'line': hx(b'A ' + b'x' * k)} for k in (509, 510, 511, 512)]
+    for _ in range(200 * ctx.scale):
+        ln = b''.join(rng.choice(COMP_TOK) for _ in range(rng.randint(0, 8)))
+        if lower_is_ascii(ln.decode('utf-8', 'replace')):
+            cases.append({'kind': 'fromstr', 'line': hx(ln)})
+    return cases
+
+
+def util_cases(ctx):
+    rng = ctx.rng
+    cases = []
+    fmt = ['\x03', '\x03', '1', '2', ',', 'a', '\x02', '\x0f', '\x1d', '\x1f', '\x1e', '\x11', '\x16', '\x01', ':', '٣', ' ']
+    for n in range(0, 4):           # strip: exhaustive over the colour grammar alphabet up to length 3 after a colour code
+        for tup in itertools.product(['\x03', '1', ',', 'a'], repeat=n):
+            cases.append({'kind': 'util', 'fn': 'strip1', 's': '\x03' + ''.join(tup)})
+            cases.append({'kind': 'util', 'fn': 'strip1', 's': ''.join(tup) + '\x0312,34x'})
+    for _ in range(150 * ctx.scale):
+        s = ''.join(rng.choice(fmt) for _ in range(rng.randint(0, 10)))
+        cases.append({'kind': 'util', 'fn': 'strip1', 's': s})
+        cases.append({'kind': 'util', 'fn': 'strip0', 's': s})
+    pa = ['a', '!', '@', '!', '@', 'b', '\n', ' ', 'é']
+    for n in range(0, 5):
+        for tup in itertools.product(['a', '!', '@', '\n'], repeat=n):
+            cases.append({'kind': 'util', 'fn': 'pprefix', 's': ''.join(tup)})
+    for _ in range(100 * ctx.scale):
+        cases.append({'kind': 'util', 'fn': 'pprefix', 's': ''.join(rng.choice(pa) for _ in range(rng.randint(0, 12)))})
+    # utf-8 with the 'replace' handler: all 1- and 2-byte strings over the boundary bytes, random longer ones
+    bb = [0x00, 0x41, 0x7f, 0x80, 0x8f, 0x90, 0x9f, 0xa0, 0xbf, 0xc0, 0xc1, 0xc2, 0xdf, 0xe0, 0xe1, 0xec, 0xed, 0xee, 0xef, 0xf0,
+          0xf1, 0xf3, 0xf4, 0xf5, 0xff]
+    for n in (1, 2):
+        for tup in itertools.product(bb, repeat=n):
+            cases.append({'kind': 'util', 'fn': 'decode', 'b': hx(bytes(tup))})
+    for _ in range(300 * ctx.scale):
+        cases.append({'kind': 'util', 'fn': 'decode', 'b': hx(bytes(rng.choice(bb) for _ in range(rng.randint(3, 7))))})
+    ia = ['1', '2', '0', '_', ' ', '\t', 'a', '٣', '１', '\x85', '\x1c', '+', '²']
+    for n in range(0, 4):
+        for tup in itertools.product(['1', '_', ' ', 'a'], repeat=n):
+            cases.append({'kind': 'util', 'fn': 'pyint', 's': '1' + ''.join(tup)})
+    for _ in range(100 * ctx.scale):
+        cases.append({'kind': 'util', 'fn': 'pyint', 's': rng.choice('0123456789') + ''.join(rng.choice(ia) for _ in range(rng.randint(0, 6)))})
+    return cases
+
+
+EVAL = {'line': eval_line, 'server': eval_server, 'irc': eval_irc, 'ircparse': eval_parse, 'comp': eval_comp,
+        'creq': eval_creq, 'ping': eval_ping, 'fromstr': eval_fromstr, 'util': eval_util}
 
 
 def run(ctx):
@@ -451,13 +1050,27 @@ def run(ctx):
                 '(every single cut, byte-at-a-time, random k-cuts); server: interleaved per-socket streams; '
                 'irc: every constructor x every argument position x all strings of length <=2 over '
                 '{a,SP,:,CR,LF,NUL,e-acute,TAB} (exhaustive) + random longer; non-trivial = a cut stream '
-                'containing LF / >1 socket / an argument containing SP : CR or LF; distinct = distinct case')
+                'containing LF / >1 socket / an argument containing SP : CR or LF; distinct = distinct case; '
+                'component: fixed catalogue of IRC lines (PING forms, numerics, int() corner cases, re-entrant event names, '
+                'invalid UTF-8, prefix shapes) whole and inside random token streams, cut at random, 1-3 sockets; '
+                'request/round trip: every constructor x every position x 29 hostile strings + Message() over 20 commands x '
+                '12 prefixes x 5 argument lists + random, written bytes re-read under 0-3 random cuts; '
+                'strip: all strings <=3 over {^C,1,comma,a} after a colour code (exhaustive) + random; parseprefix: all strings '
+                '<=4 over {a,!,@,LF} (exhaustive) + random; utf-8: all 1-2 byte strings over 25 boundary bytes + random')
     ctx.trusted += ['re.split(b"\\r?\\n") == CV.Line.scan (validated here)',
                     'UTF-8 encode/decode round-trips str; LF/CR bytes occur only as the characters LF/CR',
-                    'parseprefix (regex) is a parameter: applied to both sides of the round trip']
-    ctx.assumptions += ['IRC round trip is claimed for messages satisfying CV.Irc.wellFormed only']
+                    'parseprefix (regex) is a parameter: applied to both sides of the round trip (parsemsg part); '
+                    'on the component path it is modelled (CV.Irc.parsePrefix) and validated here',
+                    'str.lower == ASCII lower-casing on the generated text (checked per case; other text is not compared)',
+                    'Event.create / type(): an event name may be any str without NUL (validated here)',
+                    'event dispatch of circuits (FIFO queue, handler exceptions become exception events) as exercised']
+    ctx.assumptions += ['IRC round trip is claimed for messages satisfying CV.Irc.wellFormed only',
+                        'component path: encoding utf-8 (the default); no lone surrogates in arguments',
+                        'from_string round trip: prefix not the empty string, line <= 512 bytes']
     groups = [('line', line_cases(ctx)), ('server', server_cases(ctx)), ('irc', irc_cases(ctx)),
-              ('ircparse', parse_cases(ctx))]
+              ('ircparse', parse_cases(ctx)), ('comp', comp_cases(ctx)), ('creq', creq_cases(ctx)), ('ping', ping_cases(ctx)),
+              ('fromstr', fromstr_cases(ctx)), ('util', util_cases(ctx))]
+    check_params(ctx)
     for kind, cases in groups:
         for i in range(0, len(cases), 400):
             EVAL[kind](ctx, cases[i:i + 400])
